@@ -142,7 +142,7 @@ def gen(rng, tier, quarantine=()):
         if live and rng.random() < 0.3:
             # mostly innermost first; overlays and probes may also end in any other order
             ops.append({"op": "exit", "id": live.pop(rng.randrange(len(live)) if rng.random() < 0.4 else -1)})
-    sc = {"prog": "forms", "ops": ops}
+    sc = {"prog": "forms", "ops": ops, "exact_failures": True}
     if generated:
         sc.update({"prog": "generated", "program": generated, "prog_name": f"gen{rng.randrange(1 << 40):x}"})
     return sc
